@@ -58,7 +58,10 @@ func C16(c *run.Ctx) {
 		withRefresh := variant&2 != 0
 		openid := variant&4 != 0
 		db := (si/8)%3 == 0
-		w := world.New(world.Opts{Mode: world.Mode{ContractDevice: contract, DB: db, Hydrate: (si/3)%2 == 1}, JWTAccess: (si/24)%2 == 1, Cfg: func(cfg *fosite.Config) { cfg.DeviceAndUserCodeLifespan = 5 * time.Minute }})
+		w := world.New(world.Opts{Mode: world.Mode{ContractDevice: contract, DB: db, Hydrate: (si/3)%2 == 1}, JWTAccess: (si/24)%2 == 1, Cfg: func(cfg *fosite.Config) {
+			cfg.DeviceAndUserCodeLifespan = 5 * time.Minute
+			cfg.TokenEntropy = []int{0, 1, 16, 32, 48}[(si/7)%5] // whatever is configured, codes carry at least 32 random bytes
+		}})
 		w.AddClient(world.ClientSpec{ID: "pub-x", Public: true, RedirectURIs: []string{"https://app-x.example/cb"}, GrantTypes: world.AllGrants, ResponseTypes: world.AllResponseTypes,
 			Scopes: []string{"openid", "offline", "fosite"}})
 		w.DeviceFreshSession = (si/5)%2 == 1
@@ -84,6 +87,11 @@ func C16(c *run.Ctx) {
 			c.Violate(run.Violation{Kind: "device-code-repeated", Key: "device-code-repeated", Detail: "a device or user code was handed out twice"})
 		}
 		seenCodes[d.dc], seenCodes[d.uc] = true, true
+		if parts := strings.Split(strings.TrimPrefix(d.dc, "ory_dc_"), "."); len(parts) == 2 {
+			if raw, err := base64.RawURLEncoding.DecodeString(parts[0]); err != nil || len(raw) < 32 {
+				c.Violate(run.Violation{Kind: "device-code-guessable", Key: "device-code-guessable random part shorter than 32 bytes", Detail: fmt.Sprintf("device code %q carries %d random bytes (configured token entropy %d)", d.dc, len(raw), w.Cfg.TokenEntropy)})
+			}
+		}
 		if ei, ok := dv.Num("expires_in"); !ok || int(ei) != 300 {
 			c.Violate(run.Violation{Kind: "device-expires-in", Key: "device-expires-in", Detail: fmt.Sprintf("expires_in=%v, configured 300", dv.JSON["expires_in"])})
 		}
